@@ -27,7 +27,7 @@ FEATURES = {}
 
 def plan(tier, seed):
   return {'nshards': 16, 'timeout_s': 5400 if tier == 'thorough' else 1200,
-          'params': {'n_programs': 2500 if tier == 'thorough' else 140}}
+          'params': {'n_programs': 1000 if tier == 'thorough' else 140}}
 
 
 def features_for(i, rng):
